@@ -20,6 +20,7 @@ from __future__ import annotations
 
 import ast
 import re
+import re
 import struct
 from typing import Any, Callable, Dict, List, Optional, Sequence, Set, Tuple, Union
 
@@ -308,6 +309,30 @@ class Extractor:
                 except AnalysisError:
                     continue
             raise AnalysisError(f'{self.mod.relpath}:{e.lineno}: cannot resolve repeated format `{ast.unparse(e)}`')
+        if isinstance(e, ast.BinOp) and isinstance(e.op, ast.Mod) and isinstance(e.left, ast.Constant) and isinstance(e.left.value, str):
+            # '<%di %dx' % (a, b): the same as the f-string f'<{a}i {b}x' (single-assignment locals stand for their definitions)
+            args_ = list(e.right.elts) if isinstance(e.right, ast.Tuple) else [e.right]
+            pieces_ = re.split(r'%[di]', e.left.value)
+            if len(pieces_) == len(args_) + 1 and '%' not in ''.join(pieces_):
+                def _res(a_: ast.AST) -> ast.AST:
+                    class _Sub(ast.NodeTransformer):
+                        def visit_Name(s_, node: ast.Name) -> ast.AST:          # noqa: N805
+                            ds_ = [x.value for x in walk_no_nested(fn) if isinstance(x, ast.Assign) and any(isinstance(t, ast.Name) and t.id == node.id for t in x.targets)]
+                            if len(ds_) == 1 and isinstance(ds_[0], ast.BinOp):
+                                return ds_[0]
+                            return node
+                    import copy as _copy
+                    return _Sub().visit(_copy.deepcopy(a_)) if not isinstance(a_, ast.Name) else a_
+                vals_: List[ast.AST] = []
+                for i_, pc_ in enumerate(pieces_):
+                    if pc_:
+                        vals_.append(ast.Constant(value=pc_))
+                    if i_ < len(args_):
+                        vals_.append(ast.FormattedValue(value=_res(args_[i_]), conversion=-1, format_spec=None))
+                js_ = ast.JoinedStr(values=vals_)
+                ast.copy_location(js_, e)
+                ast.fix_missing_locations(js_)
+                return self.fmt_of(js_, fn, depth + 1)
         if isinstance(e, ast.JoinedStr):
             # padded fixed array idiom: f'<{n}i {4*(N-n)}x' == N slots of 'i'
             fv = [v for v in e.values if isinstance(v, ast.FormattedValue)]
